@@ -442,6 +442,7 @@ def Val.val (σ : V → Bool) : Val V → Int
   | .term t => termVal σ t
   | .expr e => e.eval σ
   | .ineq _ => 0
+  | .bool _ => 0
 
 /-- direct integer value of an arithmetic tree.  Python's unary minus is logical negation (`1 - x`) on a `Literal`
     and arithmetic negation on a `Term` / number. -/
@@ -452,6 +453,8 @@ def Tree.den (σ : V → Bool) : Tree V → Int
   | .neg a => match a.run with
       | .ok (.lit _) => 1 - a.den σ
       | _ => - a.den σ
+  | .inv a => - a.den σ - 1
+  | .pos a => a.den σ
   | .mul a b => a.den σ * b.den σ
   | .add a b => a.den σ + b.den σ
   | .sub a b => a.den σ - b.den σ
@@ -470,9 +473,10 @@ def Tree.truth (σ : V → Bool) : Tree V → Prop
 def Val.Sound (σ : V → Bool) (v : Val V) (t : Tree V) : Prop :=
   match v with
   | .ineq q => (q.holds σ ↔ t.truth σ)
+  | .bool b => b = false      -- the only `bool` ever built: an `Ineq` object is never `==` a `str` / number
   | v => v.val σ = t.den σ
 
-def Val.isIneq : Val V → Bool | .ineq _ => true | _ => false
+def Val.isIneq : Val V → Bool | .ineq _ => true | .bool _ => true | _ => false
 
 theorem Num.toInt_neg (n : Num) : n.neg.toInt = - n.toInt := by
   cases n with
@@ -507,6 +511,16 @@ theorem pyNeg_sound (σ : V → Bool) {x v : Val V} (h : pyNeg x = .ok v) :
     v.isIneq = false ∧ v.val σ = (match x with | .lit _ => 1 - x.val σ | _ => - x.val σ) := by
   cases x <;> simp [pyNeg] at h <;> subst h <;>
     simp [Val.isIneq, Val.val, litVal_neg, termVal_neg, Num.toInt_neg]
+
+theorem pyInv_sound (σ : V → Bool) {x v : Val V} (h : pyInv x = .ok v) :
+    v.isIneq = false ∧ v.val σ = - x.val σ - 1 := by
+  cases x with
+  | num n => cases n <;> simp [pyInv] at h; subst h; simp [Val.isIneq, Val.val, Num.toInt]
+  | _ => simp [pyInv] at h
+
+theorem pyPos_sound (σ : V → Bool) {x v : Val V} (h : pyPos x = .ok v) :
+    v.isIneq = false ∧ v.val σ = x.val σ := by
+  cases x <;> simp [pyPos] at h; subst h; simp [Val.isIneq, Val.val]
 
 theorem addLT_sound (σ : V → Bool) {a : Operand V} {b v : Val V} (h : addLT a b = .ok v) :
     v.isIneq = false ∧ v.val σ = a.val σ + b.val σ := by
@@ -556,24 +570,59 @@ theorem exprOfLit_val (σ : V → Bool) (l : Literal V) : (exprOfLit l).eval σ 
 theorem exprOfTerm_val (σ : V → Bool) (t : Term V) : (exprOfTerm t).eval σ = termVal σ t := by
   simp [exprOfTerm, Expr.eval_add, eval_empty, Operand.val]
 
+/-- a comparison either builds an `Ineq` that holds iff the direct comparison holds, or — only when an `Ineq` object
+    is compared by `==` with a `str` / number — answers `False` -/
 theorem pyCmp_sound (σ : V → Bool) {o : CmpOp} {x y v : Val V} (h : pyCmp o x y = .ok v) :
-    ∃ q, v = .ineq q ∧ (q.holds σ ↔ o.rel (x.val σ) (y.val σ)) := by
+    (∃ q, v = .ineq q ∧ x.isIneq = false ∧ y.isIneq = false ∧ (q.holds σ ↔ o.rel (x.val σ) (y.val σ))) ∨
+    (v = .bool false ∧ (x.isIneq = true ∨ y.isIneq = true)) := by
   cases x <;> cases y <;> simp only [pyCmp] at h <;>
     first
     | (simp at h; done)
-    | (obtain ⟨q, hq, hh⟩ := cmpPB_sound σ h
-       exact ⟨q, hq, by simpa [rel_swap, Val.val, exprOfLit_val, exprOfTerm_val] using hh⟩)
+    | (split at h <;> simp at h; done)
+    | (split at h <;> simp at h; subst h; right; simp [Val.isIneq]; done)
+    | (exfalso; simp [cmpPB, exprOf, Val.operand?, operandErr, bind, Except.bind] at h; done)
+    | (left
+       obtain ⟨q, hq, hh⟩ := cmpPB_sound σ h
+       exact ⟨q, hq, rfl, rfl, by simpa [rel_swap, Val.val, exprOfLit_val, exprOfTerm_val] using hh⟩)
+
+/-- meaning of a normalised operator -/
+def NOp.rel : NOp → Int → Int → Prop
+  | .ge, x, y => x ≥ y
+  | .gt, x, y => x > y
+  | .eq, x, y => x = y
+
+theorem CmpOp.norm_rel (o : CmpOp) (x y : Int) :
+    o.rel x y ↔ o.norm.1.rel (if o.norm.2 then y else x) (if o.norm.2 then x else y) := by
+  cases o <;> simp [CmpOp.norm, CmpOp.rel, NOp.rel]
+
+theorem Ineq.holds_makeOp (σ : V → Bool) (l : Expr V) (x : Operand V) (op : NOp) :
+    (Ineq.makeOp l x op).holds σ ↔ op.rel (l.eval σ) (x.val σ) := by
+  have h1 := Expr.eval_sub σ l x
+  cases op <;> simp only [Ineq.makeOp, Ineq.holds, Expr.eval, NOp.rel] at * <;> omega
+
+theorem Ineq.nf_makeOp {l : Expr V} (x : Operand V) (op : NOp) (hl : l.NF) : (Ineq.makeOp l x op).lhs.NF :=
+  Expr.nf_sub x hl
+
+/-- `Ineq.make` (both sides expressions) is the general constructor on an `Expr` operand -/
+theorem Ineq.make_eq_makeOp (a b : Expr V) (o : CmpOp) :
+    Ineq.make a b o = (if o.norm.2 then Ineq.makeOp b (.expr a) o.norm.1 else Ineq.makeOp a (.expr b) o.norm.1) := by
+  cases o <;> rfl
 
 theorem pyIneq_sound (σ : V → Bool) {s : String} {x y v : Val V} (h : pyIneq s x y = .ok v) :
-    ∃ q o, parseOp s = some o ∧ v = .ineq q ∧ (q.holds σ ↔ o.rel (x.val σ) (y.val σ)) := by
-  cases x <;> cases y <;> simp only [pyIneq] at h <;> try (simp at h; done)
-  rename_i a b
-  unfold Ineq.makeStr at h
+    ∃ q o, parseOp s = some o ∧ v = .ineq q ∧ x.isIneq = false ∧ y.isIneq = false ∧
+      (q.holds σ ↔ o.rel (x.val σ) (y.val σ)) := by
+  unfold pyIneq at h
   cases ho : parseOp s with
   | none => simp [ho] at h
   | some o =>
-    simp [ho] at h
-    exact ⟨_, o, rfl, h.symm, by simp [Val.val, Ineq.holds_make]⟩
+    simp only [ho] at h
+    cases hsw : o.norm.2 <;> simp only [hsw, Bool.false_eq_true, if_false, if_true] at h
+    · cases x <;> cases y <;> simp [Val.operand?] at h <;> subst h <;>
+        exact ⟨_, o, rfl, rfl, rfl, rfl, by
+          rw [Ineq.holds_makeOp, CmpOp.norm_rel, hsw]; simp [Val.val, Operand.val]⟩
+    · cases x <;> cases y <;> simp [Val.operand?] at h <;> subst h <;>
+        exact ⟨_, o, rfl, rfl, rfl, rfl, by
+          rw [Ineq.holds_makeOp, CmpOp.norm_rel, hsw]; simp [Val.val, Operand.val]⟩
 
 /-! ### normal form of everything an expression tree builds -/
 /-- an `Expr` is in normal form, an `Ineq` has a normal-form left side; other values carry no dictionary -/
@@ -629,16 +678,29 @@ theorem pyCmp_nf {o : CmpOp} {x y v : Val V} (h : pyCmp o x y = .ok v) (hx : x.N
   cases x <;> cases y <;> simp only [pyCmp] at h <;>
     first
     | (simp at h; done)
+    | (split at h <;> simp at h; done)
+    | (split at h <;> simp at h; subst h; trivial)
     | exact cmpPB_nf h (Expr.nf_add _ nf_empty)
     | exact cmpPB_nf h hx
     | exact cmpPB_nf h hy
 
 theorem pyIneq_nf {s : String} {x y v : Val V} (h : pyIneq s x y = .ok v) (hx : x.NF) (hy : y.NF) : v.NF := by
-  cases x <;> cases y <;> simp only [pyIneq] at h <;> try (simp at h; done)
-  unfold Ineq.makeStr at h
+  unfold pyIneq at h
   cases ho : parseOp s with
   | none => simp [ho] at h
-  | some o => simp [ho] at h; subst h; exact Ineq.nf_make _ hx hy
+  | some o =>
+    simp only [ho] at h
+    cases hsw : o.norm.2 <;> simp only [hsw, Bool.false_eq_true, if_false, if_true] at h
+    · cases x <;> cases y <;> simp [Val.operand?] at h <;> subst h <;> exact Ineq.nf_makeOp _ _ hx
+    · cases x <;> cases y <;> simp [Val.operand?] at h <;> subst h <;> exact Ineq.nf_makeOp _ _ hy
+
+theorem pyInv_nf {x v : Val V} (h : pyInv x = .ok v) : v.NF := by
+  cases x with
+  | num n => cases n <;> simp [pyInv] at h; subst h; trivial
+  | _ => simp [pyInv] at h
+
+theorem pyPos_nf {x v : Val V} (h : pyPos x = .ok v) : v.NF := by
+  cases x <;> simp [pyPos] at h; subst h; trivial
 
 theorem Tree.run_nf (t : Tree V) (v : Val V) (h : t.run = .ok v) : v.NF := by
   induction t generalizing v with
@@ -650,6 +712,16 @@ theorem Tree.run_nf (t : Tree V) (v : Val V) (h : t.run = .ok v) : v.NF := by
     cases ha : a.run with
     | error e => simp [ha] at h
     | ok x => simp only [ha] at h; exact pyNeg_nf h
+  | inv a ih =>
+    simp only [Tree.run, bind, Except.bind] at h
+    cases ha : a.run with
+    | error e => simp [ha] at h
+    | ok x => simp only [ha] at h; exact pyInv_nf h
+  | pos a ih =>
+    simp only [Tree.run, bind, Except.bind] at h
+    cases ha : a.run with
+    | error e => simp [ha] at h
+    | ok x => simp only [ha] at h; exact pyPos_nf h
   | mul a b iha ihb =>
     simp only [Tree.run, bind, Except.bind] at h
     cases ha : a.run with
